@@ -279,7 +279,11 @@ func (vc *VC) havocCall(call *ast.CallExpr, callee *types.Func, st *State, why s
 		if sel, ok := info.Selections[se]; ok && sel.Kind() == types.MethodVal {
 			if s2, ok := sel.Obj().Type().(*types.Signature); ok && s2.Recv() != nil {
 				if _, isPtr := s2.Recv().Type().(*types.Pointer); isPtr {
-					vc.havocLvalue(se.X, st)
+					// a repository method that the frame checker knows not to write through
+					// its receiver (a Validator's read-only methods) leaves *recv as it is
+					if callee == nil || vc.w.funcs[funcObjKey(callee)] == nil || vc.calleeMayWriteArg(callee, -1) {
+						vc.havocLvalue(se.X, st)
+					}
 				}
 			}
 		}
